@@ -29,17 +29,22 @@ def request_case(rng):
     cas = []
     called = []
     for k in range(rng.randrange(1, 4)):
-        mode = rng.choice(['normal', 'normal', 'not-started', 'waiting', 'cannot', 'moved'])
-        addr = rng.choice([0x80, 0x81, 0x90, 0x20])
+        # 'bypass-idle': operational by configuration, start() never called; 'stopped': claimed its address, then stop()
+        mode = rng.choice(['normal', 'normal', 'not-started', 'waiting', 'cannot', 'moved', 'bypass-idle', 'stopped'])
+        addr = rng.choice([0x80, 0x81, 0x90, 0x20, 0])          # 0 is a valid address
         nm = j.Name(value=(1 << 63) * (mode == 'moved') + 1000 + k)
-        ca = j.ControllerApplication(nm, addr, mode == 'normal' and rng.random() < 0.5)
+        ca = j.ControllerApplication(nm, addr, mode == 'bypass-idle' or (mode == 'normal' and rng.random() < 0.5))
         resp.ecu.add_ca(controller_application=ca)
         ca.subscribe_request(lambda sa, da, pgn, k=k: called.append((k, sa, da, pgn)))
-        if mode != 'not-started':
+        if mode not in ('not-started', 'bypass-idle'):
             ca.start(sim.VT(0))
             net.poke(resp)
         cas.append((ca, mode))
     net.run(100000)
+    for ca, mode in cas:
+        if mode == 'stopped':
+            net.run(600000)
+            ca.stop()
     lowname = list(j.Name(value=1).bytes)
     for ca, mode in cas:
         if mode in ('cannot', 'moved') and ca._device_address_announced != 254:
@@ -51,7 +56,7 @@ def request_case(rng):
         pgn = rng.choice([0xEE00, 0xFECA, 0xEE01, 0xEEFF, 0x2EE00, 0x1EE00, 0x3FFFF, 0, 1 << rng.randrange(18), rng.getrandbits(18)])
         if homeless:
             pgn = 0xEE00
-        dest = rng.choice([255, 0x80, 0x81, 0x82, 0x90, 0x20, 0x33])
+        dest = rng.choice([255, 0x80, 0x81, 0x82, 0x90, 0x20, 0x33, 0, 0])
         called.clear()
         resp.sent.clear()
         owners_of = lambda: [k for k, (ca, m) in enumerate(cas) if ca.state == ca.State.NORMAL and (dest == 255 or ca.device_address == dest)]
